@@ -56,7 +56,9 @@ MANIFEST = {
             "element), batch_independent (a batch is the concatenation of its one-row results), parse_single (non-ragged 1-D path), "
             "digit_matrix + column_ints (the right-aligned zero-filled digit matrix used for integer columns of files, any mix of "
             "widths), column_ints_selection (the column of ANY selection of the rows - index list in any order, with repeats - is "
-            "that selection of the values, whichever route the selected rows take), parse_missing (optional columns), float_logic_partial / float_logic_sci_partial / float_logic_spec_partial "
+            "that selection of the values, whichever route the selected rows take), compact_fields + lineRows_wf + lineRows_field + "
+            "lazyColumnInts_spec + lazy_column_values (a lazily read table laid out as text, any row selection compacted "
+            "as _make_contigous does, the column read from the compacted text: exactly the selected values), parse_missing (optional columns), float_logic_partial / float_logic_sci_partial / float_logic_spec_partial "
             "(for every text of the numeral grammar [+-]I[.F][e[+-]X] the float parser's validity check, sign/dot handling, digit "
             "placement and exponent denote exactly the numeral's value), format_wide / int_to_str_spec (all magnitudes < 10^20), "
             "canonical_unique, parse_int_some_iff (succeeds exactly on the grammar), join_split + split_pieces + splitBy_spec, "
